@@ -60,6 +60,10 @@ pub enum Error {
     /// missing abstract syntax to begin negotiation
     MissingAbstractSyntax { backtrace: Backtrace },
 
+    /// too many presentation contexts proposed (maximum is 128)
+    #[snafu(display("too many presentation contexts proposed: {count} (maximum is 128)"))]
+    TooManyPresentationContexts { count: usize, backtrace: Backtrace },
+
     /// could not convert to socket address
     ToAddress {
         source: std::io::Error,
